@@ -50,6 +50,8 @@ def scripted (script : Array String) (k : Nat) (_t : Nat) (prev : Option UV) : C
   | "t" => .converted (100000 + k, 0) (prev.map fun (i, v) => (i, v + 1))
   | "r" => .converted (100000 + k, 0) (prev.map fun _ => (200000 + k, 0))
   | "a" => .abandoned prev
+  | "ta" => .abandoned (prev.map fun (i, v) => (i, v + 1))
+  | "ra" => .abandoned (prev.map fun _ => (200000 + k, 0))
   | "e" => .err (300000 + k) prev
   | _ => .panic (400000 + k) prev
 
@@ -72,6 +74,7 @@ def convDrops (script : Array String) (calls : List (Nat × Option UV)) : String
       let base := [s!"T{t}"]
       let extra := match script[k]?.getD "c", p with
         | "r", some u => [uStr u]
+        | "ra", some u => [uStr u]
         | "p3", _ => [uStr (100000 + k, 0)]
         | _, _ => []
       (s!"{k}:" ++ sortedJoin (base ++ extra)) :: go (k + 1) rest
